@@ -488,7 +488,7 @@ func enum(e *core.EnumCtx) {
 	}
 	maxLen := 4
 	if e.Tier == "thorough" {
-		maxLen = 6
+		maxLen = 5
 	}
 	// configurations: kind x shapes x spare x initial x via ; sharded round-robin
 	type cfg struct {
@@ -514,7 +514,7 @@ func enum(e *core.EnumCtx) {
 	reported := map[string]bool{}
 	sampled := false
 	for ci, cf := range cfgs {
-		if ci%e.Shards != e.Shard {
+		if ci%e.Shards != e.Shard || e.Expired() {
 			continue
 		}
 		e.Begin(fmt.Sprintf("%s/shapes%d/spare%d/init%d/via%v", kindNames[cf.kind], cf.shapes, cf.spare, cf.initial, cf.via))
@@ -522,6 +522,9 @@ func enum(e *core.EnumCtx) {
 		ops := []int{}
 		var rec func(depth int)
 		rec = func(depth int) {
+			if cases&1023 == 0 && e.Expired() {
+				return
+			}
 			if depth > 0 {
 				skip := false
 				if cf.kind == 1 {
